@@ -666,6 +666,9 @@ func runC08(r *run) {
 			{"{% for g in \"ab\" %}{{ g }}{% endfor %}{{ g }}", "abG"},
 			{"{% with x=\"WX\" %}{% include \"inc.tpl\" %}{% endwith %}{% for y in \"pq\" %}{% include \"inc.tpl\" %}{% endfor %}{% set g = \"SG\" %}{% include \"inc.tpl\" %}{% ssi \"inc.tpl\" parsed %}", "<WX,GY,G><CX,p,G><CX,q,G><CX,GY,SG><CX,GY,SG>"},
 			{"{% macro m(x) %}{% include \"inc.tpl\" %}{% endmacro %}{{ m(\"MX\") }}", "<MX,GY,G>"},
+			{"{% with x=y y=x %}{{ x }}{{ y }}{% endwith %}{{ x }}{{ y }}", "GYCXCXGY"},
+			{"{% with x=\"WX\" z=x y=x|lower %}{{ z }}{{ y }}{{ x }}{% endwith %}", "CXcxWX"},
+			{"{% with g=gm gm=g k=gm.k %}[{{ g.k }}][{{ gm }}][{{ k }}]{% endwith %}", "[][G][]"},
 			{"[{{ nv }}][{{ nv.name }}][{{ gm.k }}]{% if nv %}T{% else %}F{% endif %}{% if gm %}T{% else %}F{% endif %}", "[][][]FF"}, {"{% macro m(x) %}{{ x }}{{ y }}{% endmacro %}{{ m(\"MX\") }}{{ x }}", "MXGYCX"}} {
 			a := w.args(c[0], ctx)
 			a = append(a, "-", "-", hx(c[1]))
